@@ -201,6 +201,50 @@ def interfere(variant):
         d42.substitute(d42.schema.dict({"a": d42.schema.int}), {"a": "x"})
     except Exception:
         pass
+    # other objects of the library's own classes, built with non-default options and thrown away
+    from d42.generation import Generator, Random, RegexGenerator
+    rnd = Random()
+    Generator(rnd, RegexGenerator(rnd, max_repeat=2, alphabet={"digits": "abcdef", "word": "-", "letters": "xyz"}))
+    # calls that end in an exception escaping from the middle of a traversal (a custom type whose
+    # hooks raise, as an alternative of any / an element / a value of a key)
+    if not variant:
+        return
+    bad = _raising_custom()
+    for sch, val in ((d42.schema.any(d42.schema.int, bad), None),
+                     (d42.schema.list([d42.schema.int, bad]), ["x", 1]),
+                     (d42.schema.dict({"a": d42.schema.int, "b": bad}), {"a": "x", "b": 1})):
+        for call in (lambda: d42.validate(sch, val), lambda: d42.fake(sch), lambda: repr(sch),
+                     lambda: d42.substitute(sch, val), lambda: sch == val):
+            try:
+                call()
+            except Exception:
+                pass
+
+
+_RAISING = None
+
+
+def _raising_custom():
+    global _RAISING
+    if _RAISING is None:
+        from d42.custom_type import CustomSchema, Props, register_type
+
+        class VerifRaising(CustomSchema[Props]):
+            def __validate__(self, visitor, **kwargs):
+                raise AttributeError("sloppy custom type")
+
+            def __generate__(self, visitor, **kwargs):
+                raise KeyError("sloppy custom type")
+
+            def __represent__(self, visitor, **kwargs):
+                raise ValueError("sloppy custom type")
+
+            def __substitute__(self, visitor, **kwargs):
+                raise LookupError("sloppy custom type")
+
+        register_type("verif_raising", VerifRaising)
+        _RAISING = VerifRaising
+    return _RAISING()
 
 
 def replay(hist):
